@@ -76,6 +76,7 @@ type Exec struct {
 	strIDs   map[string]int
 	strByID  map[int]string
 	instrIDs map[ssa.Instruction]int
+	instrKeys map[ssa.Instruction]string
 	fnInfos  map[*ssa.Function]*fnInfo
 
 	FuncsEncoded map[string]string // name -> position
@@ -99,6 +100,12 @@ type Exec struct {
 	FeasQ, FeasPruned, FeasCached, PrunedCalls, FeasTimeouts int
 	feasModels []*Model
 	vis        bool
+	Concrete   *ReplayJob
+	TraceRegs  map[string]RegTrace
+	TraceOrder []string
+	Pin        *ReplayJob
+	pinned     map[*Term]uint64
+	concPos    map[string]int
 	feasMemo   map[int]bool
 	FeasTime  time.Duration
 	FeasOff   bool
@@ -141,7 +148,8 @@ func NewExec(prog *ssa.Program, cfg Config) *Exec {
 	if cfg.AssumeLoops == nil {
 		cfg.AssumeLoops = map[string]bool{}
 	}
-	for _, fn := range []string{"(*" + xsyncPath + ".Map).doCompute", "(*" + xsyncPath + ".MapOf).doCompute"} {
+	// retry loop of doCompute: at most 3 attempts (checked by unwinding assertion)
+	for _, fn := range []string{"(*" + xsyncPath + ".Map).doCompute@compute_attempt", "(*" + xsyncPath + ".MapOf).doCompute@compute_attempt"} {
 		if _, ok := cfg.Unwind[fn]; !ok {
 			cfg.Unwind[fn] = 3
 		}
@@ -158,7 +166,7 @@ func NewExec(prog *ssa.Program, cfg Config) *Exec {
 		globs:   map[*ssa.Global]int{},
 		Streams: map[string][]StreamEnt{},
 		strIDs:  map[string]int{"": 0}, strByID: map[int]string{0: ""},
-		instrIDs: map[ssa.Instruction]int{}, fnInfos: map[*ssa.Function]*fnInfo{},
+		instrIDs: map[ssa.Instruction]int{}, instrKeys: map[ssa.Instruction]string{}, fnInfos: map[*ssa.Function]*fnInfo{},
 		FuncsEncoded: map[string]string{}, initDone: map[*ssa.Package]bool{},
 	}
 	x.cells = append(x.cells, nil) // address 0 = nil
@@ -525,14 +533,28 @@ type frame struct {
 }
 
 func (f *frame) key(x *Exec, ins ssa.Instruction) string {
-	id, ok := x.instrIDs[ins]
+	id, ok := x.instrKeys[ins]
 	if !ok {
-		id = len(x.instrIDs) + 1
-		x.instrIDs[ins] = id
+		// stable across runs: function, block index, position in block
+		b := ins.Block()
+		pos := 0
+		if b != nil {
+			for i, in2 := range b.Instrs {
+				if in2 == ins {
+					pos = i
+					break
+				}
+			}
+			id = fmt.Sprintf("%s.b%d.%d", b.Parent().String(), b.Index, pos)
+		} else {
+			id = fmt.Sprintf("?%p", ins)
+		}
+		x.instrKeys[ins] = id
 	}
 	var sb strings.Builder
 	sb.WriteString(f.path)
-	fmt.Fprintf(&sb, "/%d", id)
+	sb.WriteString("/")
+	sb.WriteString(id)
 	for _, i := range f.iterVec {
 		fmt.Fprintf(&sb, ".%d", i)
 	}
@@ -541,11 +563,14 @@ func (f *frame) key(x *Exec, ins ssa.Instruction) string {
 
 func (x *Exec) unwindBound(L *loopInfo) (int, bool) {
 	k := x.Cfg.DefaultUnwind
-	fnName := L.header.Parent().String()
+	fnName := baseName(L.header.Parent())
 	if v, ok := x.Cfg.Unwind[fnName]; ok {
 		k = v
 	}
 	if v, ok := x.Cfg.Unwind[L.name]; ok {
+		k = v
+	}
+	if v, ok := x.Cfg.Unwind[fnName+"@"+L.header.Comment]; ok {
 		k = v
 	}
 	as := x.Cfg.AssumeLoops[L.name] || x.Cfg.AssumeLoops[fnName]
@@ -591,6 +616,13 @@ func (x *Exec) CallFunction(fn *ssa.Function, args []Value, binds []Value, g *Te
 	if x.Prof != nil {
 		x.Prof[fn.String()] += x.U.NumTerms() - t0
 		x.ProfCalls[fn.String()]++
+	}
+	if x.TraceRegs != nil {
+		for i, r := range f.rets {
+			k := fmt.Sprintf("%s/ret%d", path, i)
+			x.TraceOrder = append(x.TraceOrder, k)
+			x.TraceRegs[k] = RegTrace{x.U.True, r.g, fmt.Sprintf("%s: return edge #%d of %d", fn.Name(), i, len(f.rets))}
+		}
 	}
 	// merge returns
 	res := fn.Signature.Results()
@@ -676,7 +708,9 @@ func (x *Exec) runLoop(f *frame, L *loopInfo) {
 			break
 		}
 		if counted > K {
-			if assumeMode {
+			if assumeMode && x.thr != nil && x.thr.NoWait {
+				x.oblige("blocked", g, fmt.Sprintf("spin loop %s: a reader would have to wait for a stalled writer", L.name), L.header.Instrs[0].Pos())
+			} else if assumeMode {
 				x.Assume(g, x.U.False, "")
 			} else {
 				x.oblige("unwind", g, fmt.Sprintf("loop %s needs more than %d iterations", L.name, K), L.header.Instrs[0].Pos())
@@ -729,9 +763,26 @@ func (x *Exec) runBlock(f *frame, b *ssa.BasicBlock) {
 	x.runBlockEdges(f, b, in)
 }
 
+type RegTrace struct {
+	G *Term
+	V *Term
+	Desc string
+}
+
 func (x *Exec) setReg(f *frame, v ssa.Value, val Value, g *Term) {
 	f.env[v] = val
 	f.envG[v] = g
+	if x.TraceRegs != nil {
+		if ins, ok := v.(ssa.Instruction); ok {
+			if t, ok := val.(*Term); ok {
+				k := f.key(x, ins)
+				if _, dup := x.TraceRegs[k]; !dup {
+					x.TraceOrder = append(x.TraceOrder, k)
+				}
+				x.TraceRegs[k] = RegTrace{g, t, fmt.Sprintf("%s: %s = %s @%s", f.fn.Name(), v.Name(), ins.String(), x.pos(ins.Pos()))}
+			}
+		}
+	}
 }
 
 func (x *Exec) runBlockEdges(f *frame, b *ssa.BasicBlock, in []edge) {
